@@ -25,7 +25,9 @@ from . import core
 from .core import MachineryError
 
 ALL_READS = ["R_BODY", "R_ANON", "R_CALLBODY", "R_CTL", "R_ATTR", "R_FILTER", "R_FILTERARG",
-             "R_TOPDEF_BYNAME", "R_TOPDEF_SELF", "R_NESTED", "R_NESTED_SELF", "R_NAMED"]
+             "R_TOPDEF_BYNAME", "R_TOPDEF_BYNAME_CTL", "R_TOPDEF_BYNAME_ANON", "R_TOPDEF_BYNAME_CALLBODY",
+             "R_TOPDEF_BYNAME_CALLBODYARGS", "R_TOPDEF_BYNAME_NSCALL", "R_TOPDEF_BYNAME_VIADEF",
+             "R_TOPDEF_SELF", "R_TOPDEF_VIADEF_SELF", "R_NESTED", "R_NESTED_CALLBODY", "R_NESTED_SELF", "R_NAMED"]
 BODYLEVEL = ["R_BODY", "R_ANON", "R_CALLBODY", "R_CTL", "R_ATTR", "R_FILTER", "R_FILTERARG"]
 HOPS = ["HopClosure", "HopModule", "HopImport", "HopContext", "HopBuiltin", "HopUndefined", "Done"]
 PLAIN_NAMES = ["q", "zz", "item", "value_1", "Row"]
@@ -46,6 +48,15 @@ def inner_for(name, r):
     return {
         "R_BODY": rd,
         "R_TOPDEF_BYNAME": "${f_%s()}" % name,
+        # call paths of the by-name def: the def is referenced ONLY where the path says
+        "R_TOPDEF_BYNAME_CTL": "%% if f_%s() is not None:\n%% endif\n" % name,
+        "R_TOPDEF_BYNAME_ANON": "<%%block>${f_%s()}</%%block>" % name,
+        "R_TOPDEF_BYNAME_CALLBODY": "<%%call expr='w()'>${f_%s()}</%%call>" % name,
+        "R_TOPDEF_BYNAME_CALLBODYARGS": "<%%call expr='w2()' args='z'>${f_%s()}</%%call>" % name,
+        "R_TOPDEF_BYNAME_NSCALL": "<%%self:w>${f_%s()}</%%self:w>" % name,
+        "R_TOPDEF_BYNAME_VIADEF": "${k_%s()}" % name,
+        "R_TOPDEF_VIADEF_SELF": "${self.k_%s()}" % name,
+        "R_NESTED_CALLBODY": "<%%call expr='w()'>${f_%s()}</%%call>" % name,
         "R_TOPDEF_SELF": "${self.f_%s()}" % name,
         "R_NESTED": "${f_%s()}" % name,
         "R_NESTED_SELF": "${self.f_%s()}" % name,
@@ -69,11 +80,13 @@ def build_case(S, r, name):
         t += "<%%namespace file='lib' import='%s'/>\n" % name
     if has("PAGE"):
         t += "<%%page args=\"%s=%s\"/>\n" % (name, lam("PAGE"))
-    t += "<%def name='echo(v)'>${v}</%def>\n<%def name='w()'>${caller.body()}</%def>\n"
+    t += "<%def name='echo(v)'>${v}</%def>\n<%def name='w()'>${caller.body()}</%def>\n<%def name='w2()'>${caller.body(1)}</%def>\n"
+    if r in ("R_TOPDEF_BYNAME_VIADEF", "R_TOPDEF_VIADEF_SELF"):
+        t += "<%%def name='k_%s()'>${f_%s()}</%%def>\n" % (name, name)
     darg = ("%s=%s" % (name, lam("DEFARG"))) if has("DEFARG") else ""
     encl = ("<%% %s = %s %%>" % (name, lam("ENCL"))) if has("ENCL") else ""
     rd = "${show(%s)}" % name
-    nested = r in ("R_NESTED", "R_NESTED_SELF")
+    nested = r.startswith("R_NESTED")
     t += "<%%def name=\"f_%s(%s)\">%s%s</%%def>\n" % (
         name, darg, encl, ("<%def name='g()'>" + rd + "</%def>${g()}") if nested else rd)
     if has("BODY"):
@@ -243,13 +256,16 @@ def record_multi(rng, tid, strict):
     pg = [n for n in names if has(n, "PAGE")]
     if pg:
         t += "<%%page args=\"%s\"/>\n" % ", ".join("%s=%s" % (n, lam("PAGE")) for n in pg)
-    t += "<%def name='echo(v)'>${v}</%def>\n<%def name='w()'>${caller.body()}</%def>\n"
+    t += "<%def name='echo(v)'>${v}</%def>\n<%def name='w()'>${caller.body()}</%def>\n<%def name='w2()'>${caller.body(1)}</%def>\n"
     mark = lambda n, r: "{%s/%s=" % (n, r)
     for n in names:
         darg = ("%s=%s" % (n, lam("DEFARG"))) if has(n, "DEFARG") else ""
         encl = ("<%% %s = %s %%>" % (n, lam("ENCL"))) if has(n, "ENCL") else ""
         # f_<n>: read directly; h_<n>: read from a nested def
         t += "<%%def name=\"f_%s(%s)\">${show(%s)}</%%def>\n" % (n, darg, n)
+        for pfx in ("fc", "fa", "fs", "fv", "ft"):      # one def per call path, referenced only there
+            t += "<%%def name=\"%s_%s(%s)\">${show(%s)}</%%def>\n" % (pfx, n, darg, n)
+        t += "<%%def name='kv_%s()'>${fv_%s()}</%%def>\n" % (n, n)
         t += "<%%def name=\"h_%s(%s)\">%s<%%def name='g()'>${show(%s)}</%%def>${g()}</%%def>\n" % (n, darg, encl, n)
     for n in names:
         if has(n, "BODY"):
@@ -259,6 +275,11 @@ def record_multi(rng, tid, strict):
     for n in names:
         for r, call in (("R_TOPDEF_BYNAME", "${f_%s()}" % n), ("R_TOPDEF_SELF", "${self.f_%s()}" % n),
                         ("R_NESTED", "${h_%s()}" % n), ("R_NESTED_SELF", "${self.h_%s()}" % n),
+                        ("R_TOPDEF_BYNAME_CALLBODY", "<%%call expr='w()'>${fc_%s()}</%%call>" % n),
+                        ("R_TOPDEF_BYNAME_CALLBODYARGS", "<%%call expr='w2()' args='z'>${fa_%s()}</%%call>" % n),
+                        ("R_TOPDEF_BYNAME_NSCALL", "<%%self:w>${fs_%s()}</%%self:w>" % n),
+                        ("R_TOPDEF_BYNAME_VIADEF", "${kv_%s()}" % n),
+                        ("R_TOPDEF_BYNAME_CTL", "\n%% if ft_%s() is not None:\n%% endif\n" % n),
                         ("R_NAMED", "<%%block name='nb_%s'>${show(%s)}</%%block>" % (n, n))):
             if rng.random() < 0.7:
                 t += mark(n, r) + call + "}\n"
@@ -465,8 +486,9 @@ def history_template(hist):
     t = ""
     for n in ("x", "y"):
         t += "<%%def name=\"rd_%s()\">${show(%s)}</%%def>\n" % (n, n)
+        t += "<%%def name=\"rdc_%s()\">${show(%s)}</%%def>\n" % (n, n)      # referenced only inside <%%call> bodies
         t += "<%%def name=\"asg_%s()\"><%% %s = 'D' %%>${show(%s)}</%%def>\n" % (n, n, n)
-    t += "<%def name=\"kwd()\"><% kk = context.kwargs\nhold(kk) %>${showkw(kk)}</%def>\n"
+    t += "<%def name=\"kwd()\"><% kk = context.kwargs\nhold(kk) %>${showkw(kk)}</%def>\n<%def name='wr()'>${caller.body()}</%def>\n"
     for h in hist:
         op, n = h["op"], h["n"]
         if op == "assign":
@@ -477,6 +499,8 @@ def history_template(hist):
             t += "${self.rd_%s()}" % n
         elif op == "read_byname":
             t += "${rd_%s()}" % n
+        elif op == "read_byname_callbody":
+            t += "<%%call expr='wr()'>${rdc_%s()}</%%call>" % n
         elif op == "defassign_self":
             t += "${self.asg_%s()}" % n
         elif op == "defassign_byname":
